@@ -151,6 +151,10 @@ func main() {
 	skipped := map[int]string{}
 	var body strings.Builder
 	for k, f := range fns {
+		if f.Pkg != p { // a callee in another package (e.g. encoding/binary): exercised through its callers
+			skipped[k] = "other package"
+			continue
+		}
 		g.b.Reset()
 		g.pf("func gfCase%d(w *bufio.Writer) {\n", k)
 		var args []string // actual arguments of the Go call
@@ -227,7 +231,9 @@ func main() {
 	var src strings.Builder
 	fmt.Fprintf(&src, "package %s\n\nimport (\n\t\"bufio\"\n\t\"fmt\"\n\t\"os\"\n\t\"reflect\"\n\t\"sort\"\n\t\"strings\"\n\t\"testing\"\n\t\"time\"\n", p.Types.Name())
 	for path, name := range g.imports {
-		fmt.Fprintf(&src, "\t%s %q\n", name, path)
+		if strings.Contains(body.String(), name+".") { // (a skipped function may have asked for it)
+			fmt.Fprintf(&src, "\t%s %q\n", name, path)
+		}
 	}
 	src.WriteString(")\n\n" + strings.Replace(goSupport, "SEED", strconv.FormatInt(*seed, 10), 1) + body.String())
 	src.WriteString("func TestGofuncValidate(t *testing.T) {\n\tf, err := os.Create(os.Getenv(\"GOFUNC_OUT\"))\n\tif err != nil {\n\t\tt.Fatal(err)\n\t}\n\tw := bufio.NewWriter(f)\n")
@@ -280,6 +286,10 @@ func main() {
 	bad := 0
 	for k, f := range fns {
 		if why, skip := skipped[k]; skip {
+			if f.Pkg != p {
+				fmt.Printf("validate: %-12s %-28s callee in another package: validated through its callers only\n", rel, f.Name)
+				continue
+			}
 			fmt.Printf("validate: %s %s: SKIPPED (%s)\n", rel, f.Name, why)
 			failed++
 			continue
